@@ -57,7 +57,7 @@ func genValidity(g *genCtx) {
 	}
 	nr := 400
 	if g.thorough() {
-		nr = 60000
+		nr = 300000
 	}
 	for i := 0; i < nr; i++ {
 		var ds string
